@@ -65,6 +65,13 @@ deriving Repr, DecidableEq
 /-- helpers.NonBEHostAppFilter. -/
 def AppU.counted (a : AppU) : Bool := a.qos != qBE || a.base == 0 || a.base != 1
 
+/-- util.GetNodeReservationFromAnnotation, CPU part in milli.  Annotation shape: 0 = absent, 1 = `resources.cpu` only,
+    2 = `resources.cpu` and a parsable `reservedCPUs` (its size overrides the amount), 3 = malformed JSON,
+    4 = `resources.cpu` and an UNPARSABLE `reservedCPUs` (error: the whole annotation is dropped, the amount too),
+    5 = resources without a cpu entry. -/
+def annoReserved (kind resMilli nCpus : Int) : Int :=
+  if kind == 1 then resMilli else if kind == 2 then nCpus * 1000 else 0
+
 /-- helpers.GetNodeResourceReserved: max(max(capacity - allocatable, 0), annotation reservation). -/
 def nodeReserved (cap alloc anno : Int) : Int :=
   let k := cap - alloc
@@ -266,6 +273,16 @@ def adjustCPUSet (f : FloatOps) (budgetMilli : Int) (oldN : Nat) (procs : List P
     let b := if cpus - lsrNum > 0 then policy (cpus - lsrNum) ls else []
     applyResult (a ++ b)
 
+/-- `apiext.GetReservedCPUs` + `cpuset.Parse` on the topology's node-reservation annotation:
+    0 = absent, 1 = `reservedCPUs` string that parses, 2 = unparsable cpuset string, 3 = malformed JSON.
+    Only shape 1 protects anything. -/
+def effReserved (kind : Int) (cpus : List Int) : List Int := if kind == 1 then cpus else []
+
+/-- `getSystemQOSExclusiveCPU`: 0 = annotation absent, 1 = cpuset given and `cpusetExclusive` absent
+    (exclusive by default), 2 = `cpusetExclusive: true`, 3 = `cpusetExclusive: false` (shared: NOT protected),
+    4 = malformed JSON. -/
+def effSysExcl (kind : Int) (cpus : List Int) : List Int := if kind == 1 || kind == 2 then cpus else []
+
 /-! ### 3b. calcBECPUSet (recover path) and the kubelet-policy dispatch of applyBESuppressCPUSet -/
 
 /-- calcBECPUSet's `exclusiveCPUID` contribution of the pods: ANY valid LSE pod naming the CPU
@@ -335,5 +352,61 @@ def adjustQuota (f : FloatOps) (budgetMilli cur capMilli : Int) : QOutcome :=
   let cores := coresOf capMilli
   if f.bypassLt q cur cores && q != beMinQuota && cur != beUnsetQuota then .bypass else
   if f.stepGt q cur cores && cur != beUnsetQuota then .write (cur + f.stepInc cores) else .write q
+
+/-! ### 5. one round of suppressBECPU: feature switch, mode dispatch, recovery of the other mode -/
+
+/-- the BE cgroup files plus the one piece of agent state the round reads
+    (`suppressPolicyStatuses[cfsQuota] == recovered`). -/
+structure RState where
+  root : List Int
+  pod  : List Int
+  cont : List Int
+  quota : Int
+  quotaRecovered : Bool
+deriving Repr, DecidableEq
+
+/-- what a round sees.  `sloKind`: 0 NodeSLO nil, 1 threshold strategy without `enable` (both: error, return),
+    2 `enable: false`, 3 `enable: true`.  `budget` is calculateBESuppressCPU's value on this round's inputs. -/
+structure RoundIn where
+  sloKind     : Int
+  quotaMode   : Bool
+  nodeNil     : Bool
+  nPodMetas   : Nat
+  nodeMetric  : Bool
+  infoMissing : Bool
+  budget      : Int
+  capMilli    : Int
+  procs       : List Proc
+  pods        : List PodC
+  reserved    : List Int
+  sysExcl     : List Int
+  topoNil     : Bool
+  kp          : Int
+
+/-- recoverCFSQuotaIfNeed: write −1 unless the status map already says "recovered". -/
+def recoverQuota (st : RState) : RState :=
+  if st.quotaRecovered then st else { st with quota := beUnsetQuota, quotaRecovered := true }
+
+/-- recoverCPUSetIfNeed(container depth): calcBECPUSet (needs NodeCPUInfo and the topology object) to every level. -/
+def recoverCpusetAll (st : RState) (i : RoundIn) : RState :=
+  if i.infoMissing || i.topoNil then st else
+  let r := calcBESet i.procs i.pods i.reserved i.sysExcl
+  { st with root := r, pod := r, cont := r }
+
+/-- suppressBECPU (BECPUManager gate off).  `none` = panic. -/
+def roundStep (f : FloatOps) (st : RState) (i : RoundIn) : Option RState :=
+  if i.sloKind ≤ 1 then some st
+  else if i.sloKind = 2 then some (recoverCpusetAll (recoverQuota st) i)
+  else if i.nodeNil || i.nPodMetas == 0 || !i.nodeMetric || i.infoMissing then some st
+  else if i.quotaMode then
+    let st1 := match adjustQuota f i.budget st.quota i.capMilli with
+      | .bypass => st
+      | .write q => { st with quota := q }
+    some (recoverCpusetAll { st1 with quotaRecovered := false } i)
+  else
+    match adjustFull f i.kp i.topoNil i.budget st.root.length i.procs i.pods i.reserved i.sysExcl with
+    | none => none
+    | some w =>
+      some (recoverQuota { st with root := w.root.getD st.root, pod := w.pod.getD st.pod, cont := w.cont.getD st.cont })
 
 end KoordVerif.C10
